@@ -57,7 +57,7 @@ func (id *shsIdent) getCred(v cert.Version) *Credential { return id.creds[v] }
 // acceptable is the ground truth of the trust rule for this identity at time t.
 func (id *shsIdent) acceptable(t time.Time, v cert.Version) bool {
 	c := id.certs[v]
-	if c == nil || !id.trusted || id.blocked || id.kind == "thief" {
+	if c == nil || !id.trusted || id.blocked || id.kind == "thief" || id.kind == "impostor" {
 		return false
 	}
 	if c.Expired(t) || id.issuer.Expired(t) {
@@ -250,6 +250,24 @@ func runSHS(rc *sk.RunCtx, focus string) {
 		}
 		w.ids = append(w.ids, id)
 	}
+	if tp.Chance(1, 2) {
+		// the impostor: presents the first honest identity's certificate AND its public key as the Noise static key,
+		// without holding the private half (its own private key is unrelated). It only ever responds: an IX responder
+		// completes before the initiator has proven anything, which is the pattern's design, not a finding.
+		victim := w.ids[0]
+		var priv []byte
+		if w.curve == cert.Curve_P256 {
+			_, priv = ct.P256Keypair()
+		} else {
+			_, priv = ct.X25519Keypair()
+		}
+		id := &shsIdent{name: "impostor", kind: "impostor", creds: map[cert.Version]*Credential{}, certs: map[cert.Version]cert.Certificate{}, issuer: ca, defV: victim.defV, trusted: true}
+		for v, c := range victim.certs {
+			id.certs[v] = c
+			id.creds[v] = NewCredential(c, victim.creds[v].Bytes, priv, w.suite)
+		}
+		w.ids = append(w.ids, id)
+	}
 	rc.Trace("S-hs focus=%s curve=%v cipher=%s ca=v%d ids=%s", focus, w.curve, cname, caV, w.kinds())
 
 	steps := 40 + tp.Choose(80)
@@ -358,6 +376,9 @@ func (w *shsWorld) verifier(rec **cert.CachedCertificate) CertVerifier {
 
 func (w *shsWorld) newSession() {
 	id := w.ids[w.tp.Choose(len(w.ids))]
+	if id.kind == "impostor" {
+		id = w.ids[0]
+	}
 	in := &shsInit{n: len(w.inits), id: id}
 	idx := w.index()
 	m, err := NewMachine(id.defV, id.getCred, w.verifier(&in.acc), func() (uint32, error) { return idx, nil }, true, header.HandshakeIXPSK0)
@@ -803,6 +824,10 @@ func (w *shsWorld) feed(in *shsInit, data []byte, kind string, from *shsResp) {
 			return
 		}
 		in.res, in.by = res, from
+		if from.id.kind == "impostor" {
+			w.fail("C05", "static-key-not-proven", "session %d: initiator completed with a responder that presented %s's certificate and public key without holding the private key", in.n, w.ids[0].name)
+			return
+		}
 		w.checkCompletion("initiator", in.m, res, in.acc, &shsMsg{fromI: in}, kind, false)
 		if w.rc.Failed() {
 			return
